@@ -10,4 +10,4 @@ package eager
 //@   stream 1 step IN writeerr: lastres(Write) != nil ==> stepErr != nil
 //@   stream 1 step IN once: calls(Write) == old(calls(Write)) + 1
 //@   ensures errprop: runErr != nil ==> result != nil
-//@   ensures flusherr: runErr == nil && lastres(Flush) != nil ==> result != nil
+//@   ensures flusherr: runErr == nil && lastres(libFlush) != nil ==> result != nil
